@@ -31,6 +31,8 @@ package directory
 //@ at return ghost lastKey(n) = key
 //@ ensures looks-up-this-key: lastKey(n) == key
 //@ at return assert a-name-resolves-only-to-the-link-the-scan-found: err == nil ==> link != nil && result == link
+//@ ensures not-found-means-no-link-has-that-name: err != nil ==> (forall j int :: 0 <= j && j < len(n._substrate.Links.x) ==> linkKey(n._substrate.Links.x[j]) != key)
+//@ inst not-found-means-no-link-has-that-name: j: j
 //@ ensures found-or-error: (err == nil ==> result != nil) && (err != nil ==> result == nil)
 //@ at call utils.Lookup#1 assert scans-its-own-links-for-this-key: callee_key == key && callee_links.x == n._substrate.Links.x
 //@ func (*directory._UnixFSBasicDir).LookupBySegment
